@@ -13,7 +13,7 @@ def configs(ctx):
                  ('near_sym_b', 'qshift_c'), ('near_sym_a', 'qshift_d')]
     lay = [(2, -1), (1, 3), (4, 0)] if ctx.quick else [(2, -1), (1, 3), (4, 0), (0, 5), (5, 2), (-3, -1)]
     for (b, q) in pairs:
-        for (H, W) in ((8, 12), (6, 10)):
+        for (H, W) in ((8, 12), (6, 10)) + (((12, 16), (10, 14), (16, 8), (4, 4)) if not ctx.quick else ()):
             for fn in ('FWD_J1', 'FWD_J2PLUS'):
                 for variant in ('plain', 'skip'):
                     for (o, r) in (lay if (b, q) == pairs[0] else lay[:1]):
